@@ -13,6 +13,13 @@ import PySMT.Gen.PendingPop
   `reset_assertions` clears `_assertion_stack` but NOT `_backtrack_points`; the `assertions` property is itself
   decorated.
 
+* `solve(assumptions)`: assumptions the native check accepts are passed to it (`Op.oneshot .assuming`: no state change);
+  the others are asserted by the wrapper itself in a level of its own, `self.push(); self.add_assertion(And(..));
+  self.pending_pop = True` inside the decorated `solve`/`_solve` (z3.py, msat.py: non-literals; bdd.py, yices.py: all;
+  pico.py: non-unit clauses) — `Op.assumingPush`, and `Op.assumingPushFails` when that `add_assertion` raises.  Whether a
+  class has this path and whether the assignment is protected by `try/finally` is extracted per class (`assumePush`,
+  `assumeGuarded`).
+
 The concrete solver classes differ in *where* they put `@clear_pending_pop`; the model is parametrised by
 that placement (`Config`), which `tools/gen_pendingpop.py` extracts from the source for every class.  For each
 entry point the flag says whether a decorated function is entered before the native solver is touched
@@ -41,6 +48,8 @@ structure Config where
   tracking : Bool      -- the class is an IncrementalTrackingSolver (bookkeeping lists exist)
   native : Bool        -- the proxies drive a native assertion stack (false: they are no-ops, e.g. Portfolio)
   pushSupported : Bool -- false: `push` raises NotImplementedError and is_sat uses solve([f])
+  assumePush : Bool    -- solve/_solve has the path `self.push(); self.add_assertion(And(…)); self.pending_pop = True`
+  assumeGuarded : Bool -- … with `pending_pop = True` in a `finally` (reached also when add_assertion raises)
   deriving Repr, DecidableEq, Inhabited
 
 inductive Err where
@@ -153,11 +162,40 @@ def isSatFails (cfg : Config) (fail : Fail) (f : Nat) (st : St) : Except Err St 
       .ok { st with pending := true }
   else solve cfg (some f) st
 
+/-- `solve(assumptions)` as the wrappers implement it for assumptions they cannot hand to the native check
+    (z3.py:212-228 and msat.py for non-literals; bdd.py, yices.py for all; pico.py for non-unit clauses): inside the
+    decorated `solve`/`_solve`: `self.push()` and `self.add_assertion(And(assumptions))` — the PUBLIC methods, so for a
+    tracking class the bookkeeping runs too —, `self.pending_pop = True`, then the native check. -/
+def assumingPush (cfg : Config) (f : Nat) (st : St) : Except Err St :=
+  if cfg.assumePush then
+    seq (enter cfg cfg.dSolve st) fun st =>
+    seq (push cfg 1 st) fun st =>
+    seq (add cfg f st) fun st =>
+    .ok { st with pending := true, checks := seen cfg st :: st.checks }
+  else solve cfg (some f) st      -- a class without that path hands every assumption to the native check
+
+/-- … when `add_assertion` raises after the `push` (the formula is not Boolean, cannot be converted, …): the decorated
+    `add_assertion` is entered and raises before anything is asserted.  With the guard (`finally`, Z3Solver since the
+    repair of finding F44) `pending_pop` is set on the way out; without it the pushed level stays open. -/
+def assumingPushFails (cfg : Config) (f : Nat) (st : St) : Except Err St :=
+  if cfg.assumePush then
+    seq (enter cfg cfg.dSolve st) fun st =>
+    seq (push cfg 1 st) fun st =>
+    seq (enter cfg cfg.dAdd st) fun st =>
+    .ok { st with pending := cfg.assumeGuarded || st.pending }
+  else solve cfg (some f) st      -- nothing is asserted, so nothing raises
+
+/-- the one call whose exception path is unprotected in some wrappers -/
+def leaky : Op → Bool
+  | .assumingPushFails _ => true
+  | _ => false
+
 /-- does the call end with an exception that the client is expected to catch? -/
 def raises (cfg : Config) : Op → Bool
   | .solveFails => true
   | .oneshotFails .assuming fail _ => fail == .solve
   | .oneshotFails _ fail _ => cfg.pushSupported || fail == .solve
+  | .assumingPushFails _ => cfg.assumePush
   | _ => false
 
 /-- the formula `Not f` handed to `is_sat` by `is_valid`; formulas are opaque numbers, the harness uses even
@@ -184,12 +222,38 @@ def step (cfg : Config) (st : St) : Op → Except Err St
   | .oneshotFails .isUnsat fail f => isSatFails cfg fail f st
   | .oneshotFails .isValid fail f => isSatFails cfg fail (negOf f) st
   | .oneshotFails .assuming _ f => solve cfg (some f) st
+  | .assumingPush f => assumingPush cfg f st
+  | .assumingPushFails f => assumingPushFails cfg f st
 
 def runFrom (cfg : Config) : St → List Op → Except Err St
   | st, [] => .ok st
   | st, o :: os => seq (step cfg st o) fun st' => runFrom cfg st' os
 
 def run (cfg : Config) (ops : List Op) : Except Err St := runFrom cfg St.init ops
+
+/-! ### The glue route: a script executed on a solver
+
+`SmtLibScript.evaluate(solver)` hands every command to `InterpreterOMT.evaluate`, which for the commands below ends in
+`InterpreterSMT._smt_evaluate` (script.py:437-505): `assert` → `solver.assert_(f)` (= `add_assertion`), `push n` →
+`solver.push(n)`, `pop n` → `solver.pop(n)`, `reset-assertions` → `solver.reset_assertions()`, `check-sat` →
+`solver.check_sat()` (= `solve()`); set-logic, declare-fun, … do not touch the assertions.  `assert-soft` is refused
+(NotImplementedError) and objectives only fill the interpreter's own list: scripts containing them are not `Plain`. -/
+
+def Plain : Cmd → Bool
+  | .soft _ _ _ => false
+  | .objective _ => false
+  | _ => true
+
+def interpCmd : Cmd → Option Op
+  | .assert f => some (.assert f)
+  | .push n => some (.push n)
+  | .pop n => some (.pop n)
+  | .reset => some .reset
+  | .check => some .solve
+  | _ => none
+
+/-- the calls a (plain) script makes on the solver -/
+def interp (cs : List Cmd) : List Op := cs.filterMap interpCmd
 
 /-- the value of the `assertions` property in state `st` -/
 def observe (cfg : Config) (st : St) : Except Err (List Nat) :=
@@ -255,6 +319,12 @@ def proxyTrivial (proxy : String) : Bool :=
 
 def isTracking : Bool := c.mro.contains itsName
 
+/-- the class whose `solve` (for a tracking class: `_solve`) runs -/
+def solveOwner : Option ClassInfo :=
+  match resolveIn tbl "solve" c.mro with
+  | some o => if o.name == itsName then resolveIn tbl "_solve" c.mro else some o
+  | none => none
+
 def configOf : Config where
   dAdd := entryDecorated tbl c "add_assertion" "_add_assertion"
   dPush := entryDecorated tbl c "push" "_push"
@@ -268,6 +338,8 @@ def configOf : Config where
   native := !(isTracking c && proxyTrivial tbl c "_add_assertion" && proxyTrivial tbl c "_push" &&
               proxyTrivial tbl c "_pop" && proxyTrivial tbl c "_reset_assertions")
   pushSupported := entryImplemented tbl c "push" "_push"
+  assumePush := match solveOwner tbl c with | some o => o.assumePush | none => false
+  assumeGuarded := match solveOwner tbl c with | some o => o.assumeGuarded | none => false
 
 /-- a class one can instantiate and solve with -/
 def isConcrete : Bool := c.mro.contains solverName && entryImplemented tbl c "solve" "_solve"
